@@ -89,6 +89,11 @@ func c11(run *ev.Run) int {
 	})
 	serverPanicCheck(run, srv, "c11")
 	c11Binary(run)
+	if !run.Replaying() || strings.Contains(run.ReplayKey(), "/peer-terminator/") {
+		// trailing metadata (and error metadata) that a peer put into a
+		// compressed last envelope (the family C08 uses for the algorithms)
+		c08PeerTerminators(run, "c11")
+	}
 	return run.Finish("request.keys.compared", "response.header.keys.compared", "response.trailer.keys.compared", "error.meta.keys.compared", "binary.roundtrips")
 }
 
